@@ -273,6 +273,18 @@ fn handle(req: &Value, table: &[(&'static str, &'static str, Expander)]) -> Valu
             let lit = req["lit"].as_str().unwrap_or("").to_string();
             guarded(move || fmtcmd::run(&lit))
         }
+        // one private grammar function / combinator of fmt/parsing.rs on an arbitrary input (C03)
+        "fmt_sub" => {
+            let name = req["fn"].as_str().unwrap_or("").to_string();
+            let input = req["input"].as_str().unwrap_or("").to_string();
+            guarded(move || fmt_parsing_open::verif_open::call(&name, &input))
+        }
+        "fmt_comb" => {
+            let name = req["comb"].as_str().unwrap_or("").to_string();
+            let s = req["s"].as_str().unwrap_or("").to_string();
+            let input = req["input"].as_str().unwrap_or("").to_string();
+            guarded(move || fmt_parsing_open::verif_open::comb(&name, &s, &input))
+        }
         #[cfg(all(any(feature = "debug", feature = "display"), feature = "verif_hooks"))]
         "fmt_attr" => {
             // tokens of the attribute body, e.g.  "{} {}", a, b = c
@@ -363,8 +375,14 @@ fn handle(req: &Value, table: &[(&'static str, &'static str, Expander)]) -> Valu
                 .as_array()
                 .map(|a| a.iter().filter_map(|k| k.as_str().map(str::to_string)).collect())
                 .unwrap_or_default();
-            let alias: utils::HashSet<String> = keys.iter().cloned().collect();
-            let random: std::collections::HashSet<String> = keys.iter().cloned().collect();
+            // one `insert` per key, as `entry(..).or_insert_with(..)` does it (no up-front `reserve`: the growth path
+            // of the table decides where colliding keys end up)
+            let mut alias: utils::HashSet<String> = Default::default();
+            let mut random: std::collections::HashSet<String> = Default::default();
+            for k in &keys {
+                alias.insert(k.clone());
+                random.insert(k.clone());
+            }
             json!({
                 "alias": alias.iter().cloned().collect::<Vec<_>>(),
                 "random_state": random.iter().cloned().collect::<Vec<_>>(),
